@@ -56,8 +56,18 @@ type CompleteMultipartUploadRequest struct {
 	Parts []CompletedPart `xml:"Part"`
 }
 
+// partsAreSorted reports whether the part numbers are strictly ascending: S3
+// refuses a list that names a part twice (InvalidPartOrder), and a list that
+// repeats one large part thousands of times would otherwise be assembled into
+// an object of unbounded size.
 func (c CompleteMultipartUploadRequest) partsAreSorted() bool {
-	return sort.IntsAreSorted(c.partIDs())
+	ids := c.partIDs()
+	for i := 1; i < len(ids); i++ {
+		if ids[i] <= ids[i-1] {
+			return false
+		}
+	}
+	return true
 }
 
 func (c CompleteMultipartUploadRequest) partIDs() []int {
